@@ -32,6 +32,7 @@ func c12(c *Ctx) {
 	c12R7(c)
 	c12R8(c)
 	c12R9(c)
+	noSendUnderConsensusLock(c, "R10")
 }
 
 func isResChSend(ins ssa.Instruction) bool {
